@@ -54,9 +54,55 @@ def build(a):
     return glyphs, inproc.build_direct([(g.cps, sc.raw_svg(g) if raw else g.svg()) for g in glyphs], over)
 
 
+def exec_nameset(case):
+    """fonts whose glyph names are prefixes of one another / share shapes across glyphs,
+    built through the conformance-bound pipeline with both file-naming conventions"""
+    from vmc.props import c04
+
+    seqs, idx, collision, res = c04.build_set(case)
+    if isinstance(res, Exception):
+        return [{"status": "rejected", "clause": "C07.build", "fp": "rejected:" + type(res).__name__}]
+    cfg, font, data = res
+    problems = structure.check(data, want_names=case["keep"])
+    if problems:
+        return [bad(c, d, sig="g-prefix-collision" if collision else None) for c, d in problems[:6]]
+    return [ok("C07.valid", f"nameset:{case['fmt']}")]
+
+
+def exec_notdef(case):
+    """a source that supplies the artwork of an *existing* glyph (a coloured .notdef, given
+    through the glyph map) at any position among ordinary sources"""
+    from vmc.drive import inproc
+    from vmc.props import c04
+
+    n = case["n"]
+    pos = case["pos"]
+    glyphs = [((0xE000 + i,), c04.art(i)) for i in range(n)]
+    names = [None] * n
+    glyphs.insert(pos, ((), c04.art(7)))
+    names.insert(pos, ".notdef")
+    from nanoemoji.glyph import glyph_name
+
+    names = [nm or glyph_name(g[0]) for nm, g in zip(names, glyphs)]
+    fmt = case["fmt"]
+    try:
+        cfg, font, data = inproc.build_direct(glyphs, {"color_format": fmt, "output_file": "x.otf" if fmt.startswith("cff") else "x.ttf"}, names=names)
+    except Exception as e:
+        return [bad("C07.build", f"coloured .notdef at position {pos}: {type(e).__name__}: {e}")]
+    problems = structure.check(data, want_names=False)
+    if problems:
+        return [bad(c, d) for c, d in problems[:6]]
+    return [ok("C07.valid", f"notdef:{fmt}")]
+
+
 def execute(dev):
     from vmc.props import common
     from vmc.drive import inproc
+
+    if dev.get("kind") == "set":
+        return exec_nameset(dev)
+    if dev.get("kind") == "notdef":
+        return exec_notdef(dev)
 
     dev = {k: v for k, v in dev.items() if k != "_"}
     a = lattice.full(FULL, dev)
@@ -81,8 +127,20 @@ def execute(dev):
 
 def run(report, tier, only=None):
     k = int(only) if only and only.isdigit() else K[tier]
-    lattice.explore(report, DIMS, k, execute, relevant=relevant, timeout=300)
+    if only != "names":
+        lattice.explore(report, DIMS, k, execute, relevant=relevant, timeout=300)
     report.extra["deviation_bound"] = k
+    if only in (None, "names"):
+        import itertools
+        from vmc.core import listing
+        from vmc.props import c04
+
+        fmts = ["picosvg", "picosvgz", "untouchedsvg", "glyf_colr_1", "glyf_colr_0", "cbdt"] if tier == "quick" else FORMATS
+        cases = [{"kind": "set", "members": [a, b], "fmt": f, "keep": f == "picosvgz", "style": st}
+                 for a, b in itertools.combinations(range(len(c04.UNIVERSE)), 2) for f in fmts for st in ("emoji_u", "dash")]
+        vec = [f for f in FORMATS if f not in ("cbdt", "sbix")]
+        cases += [{"kind": "notdef", "n": n, "pos": p, "fmt": f} for f in vec for n in (1, 2, 3) for p in range(n + 1)]
+        listing.run(report, cases, execute, timeout=300)
     if only is None:
         from vmc.props import c07_cli
 
